@@ -1,4 +1,64 @@
+/-
+  C16 — C error descriptions are private to the calling thread.
+  The slot model of DnsModel/Threads.lean (one optional message per thread, written by a failing
+  table call of that thread, read through the pointer that call returned).
+-/
 import DnsModel.Threads
-import DnsModel.Steps
 namespace Dns.C16
+open Dns
+
+/-- slots after a history, starting from `s` -/
+def slotsAfter (s : Slots) (h : List TStep) : Slots := h.foldl (fun s st => (tstep s st).1) s
+
+theorem slotsAfter_spec (s : Slots) (h : List TStep) (t : Tid) :
+    slotsAfter s h t = match lastFail t h with | some m => some m | none => s t := by
+  induction h generalizing s with
+  | nil => simp [slotsAfter, lastFail]
+  | cons st rest ih =>
+    have hstep : slotsAfter s (st :: rest) = slotsAfter (tstep s st).1 rest := by simp [slotsAfter]
+    rw [hstep, ih]
+    cases st with
+    | fail u m =>
+      simp only [lastFail, tstep]
+      cases hl : lastFail t rest with
+      | some x => simp
+      | none =>
+        by_cases hu : u = t
+        · subst hu; simp
+        · have : ¬ t = u := fun h => hu h.symm
+          simp [hu, this]
+    | read u => simp [lastFail, tstep]
+
+/-- **C16.** For every interleaved history of (fail, read) steps of any number of threads, the
+description a thread reads is that thread's own most recent failure (none if it never failed),
+whatever the other threads did in between. -/
+theorem private_slot (h : List TStep) (t : Tid) :
+    (tstep (slotsAfter Slots.init h) (.read t)).2 = some (lastFail t h) := by
+  simp only [tstep]
+  rw [slotsAfter_spec]
+  cases lastFail t h <;> simp [Slots.init]
+
+/-- a failure on another thread never changes what `t` reads, wherever it is interleaved -/
+theorem other_threads_commute (h1 h2 : List TStep) (t u : Tid) (m : MsgId) (hne : u ≠ t) :
+    slotsAfter Slots.init (h1 ++ TStep.fail u m :: h2) t = slotsAfter Slots.init (h1 ++ h2) t := by
+  have key : ∀ (h1 : List TStep), lastFail t (h1 ++ TStep.fail u m :: h2) = lastFail t (h1 ++ h2) := by
+    intro h1
+    induction h1 with
+    | nil =>
+      simp only [List.nil_append, lastFail]
+      cases lastFail t h2 <;> simp [hne]
+    | cons st rest ih =>
+      cases st with
+      | fail v k => simp only [List.cons_append, lastFail, ih]
+      | read v => simp only [List.cons_append, lastFail, ih]
+  rw [slotsAfter_spec, slotsAfter_spec, key]
+
+/-- the description stays intact until that thread's next failure: reads do not disturb it -/
+theorem read_preserves (s : Slots) (t : Tid) : (tstep s (.read t)).1 = s := rfl
+
+/-! non-vacuity: two threads failing in turn each see their own message -/
+example : (tstep (slotsAfter Slots.init [.fail 0 7, .fail 1 9, .read 1]) (.read 0)).2 = some (some 7) := by decide
+example : (tstep (slotsAfter Slots.init [.fail 0 7, .fail 1 9]) (.read 1)).2 = some (some 9) := by decide
+example : (tstep (slotsAfter Slots.init [.fail 1 9]) (.read 0)).2 = some none := by decide
+
 end Dns.C16
